@@ -64,6 +64,16 @@ pub struct Obs {
     pub frozen: bool,
 }
 
+/// hangs seen by checks that do not judge hangs themselves; too many make the run inconclusive (exit 2)
+pub static HANGS: AtomicU64 = AtomicU64::new(0);
+pub const MAX_HANGS: u64 = 40;
+
+fn note_skip(reason: &str, stop: &AtomicBool) {
+    if reason == "hang" && HANGS.fetch_add(1, Ordering::Relaxed) + 1 > MAX_HANGS {
+        stop.store(true, Ordering::Relaxed);
+    }
+}
+
 pub fn hash_of<T: Hash>(t: &T) -> u64 {
     let mut h = std::collections::hash_map::DefaultHasher::new();
     t.hash(&mut h);
@@ -364,7 +374,10 @@ pub fn run_check<P: Prop>(prop: &P, tier: Tier, seed: u64) -> i32 {
                                 let mut ctx = Ctx { w: &mut w, obs: &mut obs, known: &known, tier, replay: false };
                                 match prop.check(&case, &mut ctx) {
                                     Verdict::Pass => {}
-                                    Verdict::Skip(r) => *obs.skipped.entry(r.to_string()).or_insert(0) += 1,
+                                    Verdict::Skip(r) => {
+                                        note_skip(r, &stop);
+                                        *obs.skipped.entry(r.to_string()).or_insert(0) += 1
+                                    }
                                     Verdict::Known(id) => *obs.known_attributed.entry(id).or_insert(0) += 1,
                                     Verdict::Fail(f) => {
                                         stop.store(true, Ordering::Relaxed);
@@ -448,6 +461,7 @@ pub fn run_check<P: Prop>(prop: &P, tier: Tier, seed: u64) -> i32 {
                                 Verdict::Pass => Ok(()),
                                 Verdict::Skip(r) => {
                                     if !failed_once.get() {
+                                        note_skip(r, stop);
                                         *obs.skipped.entry(r.to_string()).or_insert(0) += 1;
                                     }
                                     Ok(())
@@ -590,6 +604,10 @@ pub fn run_check<P: Prop>(prop: &P, tier: Tier, seed: u64) -> i32 {
     let _ = std::fs::create_dir_all(&edir);
     std::fs::write(edir.join(format!("{}.json", prop.id())), serde_json::to_string_pretty(&ev).unwrap()).unwrap();
 
+    if exit == 0 && HANGS.load(Ordering::Relaxed) > MAX_HANGS {
+        eprintln!("harness: inconclusive: more than {MAX_HANGS} engine calls hung; this check does not judge hangs (C06 does)");
+        return 2;
+    }
     if exit == 0 && !guard_failures.is_empty() {
         for g in &guard_failures {
             eprintln!("harness error: vacuity guard: {g}");
